@@ -24,7 +24,7 @@ def resp_case(ctx, R, LP, rng, n):
     so = str(rng.choice(["Wx", "Wz"]))
     meas = rng.choice(["x", "z", None])
     meas = None if meas is None else str(meas)
-    avals = [float(rng.uniform(-1, 1)) for _ in range(3)] + [float(rng.choice([1.0, -1.0, 0.0, 0.5, -0.999999999]))]
+    avals = [float(rng.uniform(-1, 1)) for _ in range(3 if n <= 64 else 1)] + [float(rng.choice([1.0, -1.0, 0.0, 0.5, -0.999999999]))]
     py = py_call(lambda: R.ComputeQSPResponse(np.array(avals), np.array(ph), signal_operator=so, measurement=meas)["pdat"])
     ctx.count("model:%s/%s" % (so, meas))
     ctx.count("phases:" + pat)
@@ -79,7 +79,8 @@ def refuse_case(ctx, R, rng):
             out = "ResponseError"
         except Exception as e:  # noqa
             out = type(e).__name__
-        mo = ctx.driver().ask("resp %s %s 60 3/10 1/10,1/5" % (so.replace(" ", "_") or "_", (me or "-").replace(" ", "_") or "_"))
+        tok = lambda x: "-" if x is None else (x.replace(" ", "_") or "_empty_")
+        mo = ctx.driver().ask("resp %s %s 60 3/10 1/10,1/5" % (tok(so), tok(me)))
         ctx.count("refusal")
         ctx.case(["refuse", so, me], True, {"so": so, "meas": me, "python": out, "model": mo})
         if out != "ResponseError" or mo != "err:response":
@@ -92,7 +93,7 @@ def run(tier, seed):
     ctx.axioms = core.audit(ctx.modules)
     import pyqsp.response as R
     import pyqsp.LPoly as LP
-    lengths = [1, 2, 3, 4, 5, 7, 10, 16, 25, 40, 64, 100, 150, 200] * (6 if tier == "quick" else 40)
+    lengths = [1, 2, 3, 4, 5, 7, 10, 16, 25, 40, 64] * (8 if tier == "quick" else 60) + [100, 150, 200] * (1 if tier == "quick" else 12)
     for n in lengths:
         resp_case(ctx, R, LP, ctx.rng, n)
     for _ in range(10 if tier == "quick" else 50):
